@@ -68,7 +68,7 @@ impl Prop for LspSpectrum {
         "lsp-spectrum".into()
     }
     fn rule(&self) -> String {
-        "LSP order 2..24 (even and odd), stage 1..4, alpha in {0} u [0,0.6], linear or log gain in [0.3,3] (15 %: log-uniform in [1e-4,1e6]), increasing LSPs with random (a third: crowded, strongly resonant) spacing >= 1.01*pi/(4(m+1)); pulse response (frame 1 and 2) finite, decaying and with log-magnitude ln K - s ln|A(e^{j w~})| within 0.001 neper on the frequencies within 100 dB of the peak. Non-trivial: reference response decays inside the window".into()
+        "LSP order 2..24 (even and odd), stage 1..4, alpha in {0} u [0,0.6], linear or log gain in [0.3,3] (15 %: log-uniform in [1e-9,1e6]), increasing LSPs with random (a third: crowded, strongly resonant) spacing >= 1.01*pi/(4(m+1)); pulse response (frame 1 and 2) finite, decaying and with log-magnitude ln K - s ln|A(e^{j w~})| within 0.001 neper on the frequencies within 100 dB of the peak. Non-trivial: reference response decays inside the window".into()
     }
     fn tape_len(&self, _: Tier) -> usize {
         72
@@ -90,7 +90,7 @@ impl Prop for LspSpectrum {
         let gain = match t.weighted(&[4, 13, 3]) {
             0 => *t.pick(&[1.0, 0.5, 2.0, 0.25]),
             1 => t.log_uniform(0.3, 3.0),
-            _ => t.log_uniform(1e-4, 1e6),
+            _ => t.log_uniform(1e-9, 1e6),
         };
         let mut lsp = vec![if use_log_gain { gain.ln() } else { gain }];
         lsp.extend(gen_lsp(t, m));
